@@ -112,6 +112,13 @@ def rule_listview(crate, file_suffix="numbat/src/list.rs"):
                     if len(ps) == 2 and ps[0].get("k") == "Binding" and ps[1].get("k") == "Binding":
                         view_ids.add(ps[0]["id"])
                         deque_ids.add(ps[1]["id"])
+        # … and any other mutable handle on the storage (`if let Some(alloc) = Arc::get_mut(&mut self.alloc)`,
+        # `let alloc = Arc::make_mut(..)`): every binding of type `&mut VecDeque<_>`
+        for n in walk(b["body"]):
+            if n.get("k") == "Binding" and n.get("id") not in deque_ids:
+                t = crate.ty(n)
+                if t.startswith("&mut std::collections::VecDeque<"):
+                    deque_ids.add(n["id"])
         if not deque_ids:
             continue
         short = d.split("::")[-1]
